@@ -274,8 +274,8 @@ pub fn plan(tier: Tier) -> Plan {
     let mut checks: Vec<Box<dyn Check>> = Vec::new();
     checks.push(sweep::<H1>("edge-lists", 2));
     checks.push(sweep::<H2>("edge-lists", 2));
-    checks.push(sweep::<H3>("edge-lists", if q { 1 } else { 2 }));
-    checks.push(sweep::<H4>("edge-lists", if q { 0 } else { 2 }));
+    checks.push(sweep::<H3>("edge-lists", 2));
+    checks.push(sweep::<H4>("edge-lists", if q { 1 } else { 2 }));
     checks.push(sweep::<H1>("defects", 2));
     checks.push(sweep::<H4>("defects", 2));
     checks.push(sweep::<H10>("defects", 2));
